@@ -217,15 +217,24 @@ pub fn check(case: &Case, st: &mut Stats) -> Result<(), Violation> {
             // another y, same y with another x) must reproduce the first result bit for bit
             for w in xys.windows(2) {
                 let ((x0, y0), (x1, y1)) = (w[0], w[1]);
-                if let Ok((a, b, c)) = catch(|| {
-                    let a = powf(x0, y0);
-                    let _ = (powf(x0, y1), powf(x1, y0), expf(y1), cbrtf(x1));
-                    (a, powf(x0, y0), expf(y0))
-                }) {
-                    let _ = c;
-                    if a.to_bits() != b.to_bits() && !(a.is_nan() && b.is_nan()) {
-                        return Err(fail("powf-impure", format!("powf({x0:e}, {y0:e}) returned {a:e} and, after other calls, {b:e}"), Case::Pow(vec![(x0, y0), (x1, y1)])));
+                // reference values first (the two pairs and the two crossed pairs), then the same four calls in another
+                // order with other helpers in between: every repetition must reproduce its reference bit for bit,
+                // whatever was computed in between (finite or not)
+                let args = [(x0, y0), (x1, y1), (x0, y1), (x1, y0)];
+                if let Ok(Some((k, r, g))) = catch(|| {
+                    let refs: Vec<f32> = args.iter().map(|(x, y)| powf(*x, *y)).collect();
+                    for (k, i) in [0usize, 1, 2, 3, 0, 2, 1, 0].into_iter().enumerate() {
+                        let g = powf(args[i].0, args[i].1);
+                        if g.to_bits() != refs[i].to_bits() && !(g.is_nan() && refs[i].is_nan()) {
+                            return Some((i, refs[i], g));
+                        }
+                        if k == 4 {
+                            let _ = (expf(y1), cbrtf(x1));
+                        }
                     }
+                    None
+                }) {
+                    return Err(fail("powf-impure", format!("powf({:e}, {:e}) returned {r:e} and, after calls with (x, y) in {:?}, {g:e}", args[k].0, args[k].1, args), Case::Pow(vec![(x0, y0), (x1, y1)])));
                 }
             }
             let mut any = false;
